@@ -99,6 +99,12 @@ TEXT = {
         "level_note": "Real-number model of f64. See coverage.uncovered_subclaims for the clauses of the property that are lemmas on the spec and not yet proved.",
         "design_ref": "DESIGN.md §7 C14",
     },
+    "C06": {
+        "technique": "Verus contracts on the extracted DateRoll impls of Cal / UnionCal / NamedCal / CalType, the four PartialEq bodies, NamedCal::try_new and parse_cals; lemmas over the contracts for order independence, name = explicit union, letter case",
+        "level_text": "Proof: the bodies are extracted from /repo each run. UnionCal::is_weekday / is_holiday / is_settlement are proved equal to: in the working week of every member / a holiday of some member / a business day of every settlement calendar (true when there are none), for arbitrary member lists; lemma_union_bus turns that into the statement's \"business day exactly when a business day in every member\"; lemma_union_order gives independence of list order. The four eq bodies return true exactly when both calendars agree on business day and settlement day for every day number from 1970-01-01 to 2200-12-31 (the zip/all over the two 84371-element date ranges is proved, not run). NamedCal::try_new is proved against named_post: lower-case, split on '|', more than two parts is Err, the first part's comma pieces become the members in order and the second part's the settlement list, any unknown piece is Err; lemmas give name == explicit union date for date and case-insensitivity.",
+        "level_note": "Strings are abstract (lower-casing and splitting uninterpreted), get_calendar_by_name is an assumed contract (C07 decides the tables behind it). Trusted: Verus/Z3, the extractor, the chrono and collection shims.",
+        "design_ref": "DESIGN.md §7 C06",
+    },
     "C07": {
         "engine": "verus-compiled-checker",
         "technique": "Verus-verified generic table checker (loop invariants over all 84371 days, sorted-table membership lemma) compiled and executed on the extracted tables",
